@@ -9,6 +9,13 @@
    The converse (a matching pin connects even when the chain is invalid) is what layer 1 does;
    a real connection that fails although the pin matches is reported as DRIFT, not as a verdict.
    Without a fingerprint the statement says nothing.
+   History independence: the statement decides a connection from its own fingerprint and the
+   certificate the server presents, nothing else. A sequence case is a list of connections made
+   one after the other in ONE process to the same server (application data is exchanged on every
+   successful one, so that TLS session tickets are delivered and a later connection could be a
+   resumption); every connection i is judged by PinOK on StepCase(c, i), which does not mention
+   the earlier ones: a pin that was verified by an earlier connection, possibly made with another
+   configuration, proves nothing about this one.
 
    Ground truth (Match): a fingerprint is the hash of a named certificate written in some
    form; only the forms that differ from the lower-case hex text by letter case are equal to it
@@ -42,6 +49,21 @@ FPs == {FP(of, f) : of \in Certs \cup {"CA"}, f \in CaseForms}
 Case(via, served, ver, fp) == [via |-> via, served |-> served, ver |-> ver, fp |-> fp]
 Cases == {Case(v, s, tv, fp) : v \in Vias, s \in Certs, tv \in Versions, fp \in FPs}
 
+\* sequences of connections to one server; steps = the fingerprints of the successive connections
+SeqCase(via, served, ver, fps) == [via |-> via, served |-> served, ver |-> ver, steps |-> fps]
+IsSeq(x) == "steps" \in DOMAIN x
+StepCase(sc, i) == Case(sc.via, sc.served, sc.ver, sc.steps[i])
+OtherCert(s) == IF s = "Bvalid" THEN "Avalid" ELSE "Bvalid"
+\* matching pin, the same in other letter case, the pin of another certificate, no pin (chain valid or not: by `served`)
+SeqPins(s) == {FP(s, "lower"), FP(s, "upper"), FP(OtherCert(s), "lower"), NoFP}
+SeqServed == {"Avalid", "Aself", "Aexpired"}
+SeqCasesOf(s) ==
+    {SeqCase(v, s, tv, <<a, b>>) : v \in Vias, tv \in Versions, a \in SeqPins(s), b \in SeqPins(s)}
+    \cup {SeqCase(v, s, tv, <<a, b, e>>) : v \in Vias, tv \in Versions,
+                                          a \in {FP(s, "lower"), FP(OtherCert(s), "lower")}, b \in SeqPins(s),
+                                          e \in {FP(OtherCert(s), "lower"), FP(s, "lower")}}
+SeqCases == UNION {SeqCasesOf(s) : s \in SeqServed}
+
 \* ------------------------------------------------------------------ layer 2
 Match(c) == c.fp.form \in CaseForms /\ c.fp.of = c.served
 Configured(c) == c.fp.form # "empty"
@@ -56,13 +78,21 @@ ConnectImpl(c) ==
 \* ------------------------------------------------------------------ bounded model
 VARIABLES c, res, done
 vars == <<c, res, done>>
-Init == c \in Cases /\ res = FALSE /\ done = FALSE
-Eval == ~done /\ done' = TRUE /\ res' = ConnectImpl(c) /\ UNCHANGED c
+Init == c \in Cases \cup SeqCases /\ res = FALSE /\ done = FALSE
+\* layer 1 keeps nothing between connections: a sequence is decided connection by connection
+Eval == /\ ~done /\ done' = TRUE /\ UNCHANGED c
+        /\ res' = IF IsSeq(c) THEN [i \in 1..Len(c.steps) |-> ConnectImpl(StepCase(c, i))] ELSE ConnectImpl(c)
 Next == Eval
 Spec == Init /\ [][Next]_vars
 
-ImplSatisfiesProp == done => PinOK(c, res)
+ImplSatisfiesProp ==
+    done => IF IsSeq(c) THEN \A i \in 1..Len(c.steps) : PinOK(StepCase(c, i), res[i]) ELSE PinOK(c, res)
 \* layer 1 is even exact: with a fingerprint it connects iff the pin matches, whatever the chain
-ImplExact == (done /\ Configured(c)) => (res <=> Match(c))
-EmitCases == done => Emit("CASE", [c |-> c, l1 |-> res, match |-> Match(c)])
+Exact(x, r) == Configured(x) => (r <=> Match(x))
+ImplExact ==
+    done => IF IsSeq(c) THEN \A i \in 1..Len(c.steps) : Exact(StepCase(c, i), res[i]) ELSE Exact(c, res)
+EmitCases ==
+    done => IF IsSeq(c)
+            THEN Emit("CASE", [c |-> c, l1 |-> res, match |-> [i \in 1..Len(c.steps) |-> Match(StepCase(c, i))]])
+            ELSE Emit("CASE", [c |-> c, l1 |-> res, match |-> Match(c)])
 =============================================================================
